@@ -200,6 +200,252 @@ def gen_errlocs(rng, tier):
     return out
 
 
+# ---------------------------------------------------------------------------------------------- leg c04.ranges
+# Programs for the REAL server: small name pools so that definitions, member chains and references connect; identifiers
+# placed after escaped strings, long brackets, comments, tabs, non-ASCII text; LF / CRLF / CR; several files.
+# A query (define, refs, highlight, rename) is placed on EVERY identifier occurrence (positions are computed here from the
+# rendering: UTF-16 columns, LF / CRLF / CR lines; the driver finds the identifier under the cursor with the MODEL lexer).
+BASES = ["cfg", "M", "obj", "tbl", "a"]
+KEYS = ["net", "port", "b", "c", "foo", "bar", "k", "s", "name_1", "x"]
+LOCALS = ["x", "y", "t", "v", "n1", "res"]
+SRV_KW = set(luagen.KEYWORDS)
+NAME_RE = re.compile(rb"^[A-Za-z_][A-Za-z_0-9]*$")
+
+
+class SrvGen:
+    def __init__(self, rng, mode):
+        self.r, self.mode = rng, mode            # mode: "ok" (inside the guard) / "wild"
+        self.ok = OkGen(rng, max_depth=1)
+        self.wild = luagen.Gen(rng, max_depth=1, strings="mixed")
+
+    def base(self):
+        return self.r.choice(BASES)
+
+    def key(self):
+        return self.r.choice(KEYS)
+
+    def strtok(self):
+        if self.mode == "wild" and self.r.random() < 0.6:
+            return self.wild.string().text.decode("utf8")
+        return self.ok.short_string().text.decode("utf8")
+
+    def value(self, d=1):
+        r = self.r
+        k = r.random()
+        if k < 0.2:
+            return [str(r.choice([0, 1, 2, 42, 8080]))]
+        if k < 0.35:
+            return [self.strtok()]
+        if k < 0.45:
+            return [r.choice(BASES + LOCALS)]
+        if k < 0.6:
+            return self.chain(r.choice([1, 2]))
+        if k < 0.75 and d > 0:
+            return self.table(d - 1)
+        if k < 0.85 and d > 0:
+            return ["function", "(", "p", ")", "return", "p", "end"]
+        if k < 0.92:
+            return self.chain(r.choice([1, 2])) + ["(", ")"]
+        return ["{", "}"]
+
+    def chain(self, n, base=None):
+        out = [base or self.base()]
+        for _ in range(n):
+            if self.r.random() < 0.15:
+                out += ["[", '"%s"' % self.key(), "]"]
+            else:
+                out += [".", self.key()]
+        return out
+
+    def table(self, d):
+        out = ["{"]
+        for i in range(self.r.choice([1, 2, 3])):
+            k = self.r.random()
+            if k < 0.6:
+                out += [self.key(), "="] + self.value(d)
+            elif k < 0.8:
+                out += ["[", '"%s"' % self.key(), "]", "="] + self.value(d)
+            else:
+                out += self.value(d)
+            out += [self.r.choice([",", ";"])]
+        return out[:-1] + ["}"] if self.r.random() < 0.7 else out + ["}"]
+
+    def stat(self):
+        r = self.r
+        k = r.random()
+        B, K = self.base, self.key
+        if k < 0.10:
+            return [r.choice(["local", ""]), B(), "="] + r.choice([["{", "}"], self.table(1)])
+        if k < 0.30:
+            return self.chain(r.choice([1, 2, 2, 3])) + ["="] + self.value()
+        if k < 0.40:
+            return ["function"] + self.chain(r.choice([1, 2, 3]))[:] + ["(", "p", ",", "q", ")", "return", "p", ",", r.choice(LOCALS + BASES), "end"]
+        if k < 0.50:
+            c = self.chain(r.choice([0, 1]))
+            return ["function"] + c + [":", K(), "(", "p", ")", "self", ".", K(), "=", "p", r.choice([";", ""]), "return", "self", ",",
+                                       "self", ".", K(), "end"]
+        if k < 0.56:
+            return self.chain(r.choice([0, 1])) + [":", K(), "("] + self.value(0) + [")"]
+        if k < 0.62:
+            return ["print", "("] + self.chain(r.choice([0, 1, 2])) + [","] + self.chain(r.choice([1, 2])) + [")"]
+        if k < 0.68:
+            x = r.choice(LOCALS)
+            return ["local", x, "="] + self.value() + r.choice([[], [";", "print", "(", x, ")"]])
+        if k < 0.72:
+            x, y = r.sample(LOCALS, 2)
+            return ["local", x, ",", y, "="] + self.value(0) + [","] + self.value(0)
+        if k < 0.76:
+            return ["local", "function", r.choice(LOCALS + ["foo"]), "(", "p", ")", "return", "p", ",", B(), "end"]
+        if k < 0.80:
+            return ["for", "i", "=", "1", ",", "3", "do"] + self.chain(1) + ["=", "i", "end"]
+        if k < 0.84:
+            return ["for", "k", ",", "v", "in", "pairs", "("] + self.chain(r.choice([0, 1])) + [")", "do", "print", "(", "k", ",", "v", ")", "end"]
+        if k < 0.88:
+            return ["if"] + self.chain(r.choice([0, 1])) + ["then"] + self.chain(2) + ["="] + self.value(0) + ["end"]
+        if k < 0.91:
+            return ["self", ".", K(), "="] + self.value(0)
+        if k < 0.94:
+            return ["local", r.choice(LOCALS), "=", "require", "(", '"%s"' % r.choice(["f0", "f1", "sub.f2"]), ")"]
+        if k < 0.97:
+            return ["return", B()]
+        g = luagen.Gen(r, names=BASES + KEYS[:4] + LOCALS[:3], max_depth=2,
+                       strings="mixed" if self.mode == "wild" else "none")
+        return [t.text.decode("utf8") for t in g.stat(2)]
+
+    def file(self):
+        stats = [[x for x in self.stat() if x != ""] for _ in range(self.r.choice([2, 4, 6, 9]))]
+        # `return` must be the last statement of its block
+        out = []
+        for i, st in enumerate(stats):
+            if st and st[0] == "return" and i != len(stats) - 1:
+                st = ["do"] + st + ["end"]
+            out.append(st)
+        return out
+
+
+WILD_FILL = ['"a\\nb"', '"\\65\\x41"', "[[s]]", "[==[ x ]==]", '"\U0001F600"', '"é"', "'\\''"]
+WILD_SEP = [" --[[ c ]] ", " --[=[ c ]=] ", "\n\r"]
+OKS = [" ", " ", " ", "  ", "\t", "\n", " -- c\n", " -- 中文 note\n", "\n\n", " \x0c "]
+
+
+def render_srv(stats, rng, mode):
+    """-> (text, [(byte offset, name)]) ; statements are joined on one line or by line ends"""
+    eol = rng.choice(["\n", "\n", "\r\n", "\r"])
+    dense = rng.random() < 0.3
+    out = []
+    names = []
+    pos = 0
+
+    def emit(s):
+        nonlocal pos
+        out.append(s)
+        pos += len(s.encode("utf8"))
+
+    if mode == "wild" and rng.random() < 0.15:
+        emit("﻿")
+    for si, st in enumerate(stats):
+        if si > 0:
+            emit(rng.choice([eol, eol, " ", "; ", eol + "\t", " -- c" + eol]))
+        # material in front of the statement, on its line: strings with escapes / long brackets / non-ASCII text
+        if rng.random() < 0.35:
+            fill = rng.choice(WILD_FILL) if mode == "wild" else rng.choice(['"中文"', "'x y'", '"€…"', '""'])
+            emit("local _ = " + fill + rng.choice([" ", "; ", "\t"]))
+        for ti, t in enumerate(st):
+            if ti > 0:
+                prev = st[ti - 1]
+                tight = dense and not (prev[-1:].isalnum() or prev[-1:] == "_") or not (t[:1].isalnum() or t[:1] == "_") and rng.random() < 0.5
+                if prev[-1:] == "-" and t[:1] == "-" or prev[-1:] == "[" and t[:1] in "[=" or prev[-1:] == "." and t[:1] in ".0123456789" \
+                        or prev[-1:].isdigit() and t[:1] == ".":
+                    tight = False
+                if not tight or ((prev[-1:].isalnum() or prev[-1:] == "_") and (t[:1].isalnum() or t[:1] == "_")):
+                    sep = rng.choice(OKS if mode == "ok" or rng.random() < 0.8 else WILD_SEP)
+                    emit(sep.replace("\n\r", "\0").replace("\n", eol).replace("\0", "\n\r"))
+            tb = t.encode("utf8")
+            if NAME_RE.match(tb) and t not in SRV_KW:
+                names.append((pos, t))
+            emit(t)
+    if rng.random() < 0.5:
+        emit(rng.choice([eol, " -- end 漢", eol + eol]))
+    return "".join(out), names
+
+
+def lsp_positions(text, offsets):
+    """byte offsets -> (line, UTF-16 column) under the LSP reading (LF, CRLF, CR)"""
+    starts = line_starts(text)
+    # char index of every byte offset
+    idx = {}
+    want = sorted(set(offsets))
+    b = 0
+    wi = 0
+    for ci, ch in enumerate(text):
+        while wi < len(want) and want[wi] == b:
+            idx[b] = ci
+            wi += 1
+        b += len(ch.encode("utf8"))
+    while wi < len(want):
+        idx[want[wi]] = len(text)
+        wi += 1
+    out = {}
+    import bisect
+    for o in want:
+        ci = idx[o]
+        ln = bisect.bisect_right(starts, ci) - 1
+        col = sum(2 if ord(c) > 0xFFFF else 1 for c in text[starts[ln]:ci])
+        out[o] = (ln, col)
+    return out
+
+
+def hxs(s):
+    return s.encode("utf8").hex() if s else "-"
+
+
+def srv_case(files, qfile, names, rng, max_q):
+    """files: [(rel, text)]; names: [(byte offset, name)] of file qfile"""
+    text = files[qfile][1]
+    items = ["F:%s:%s" % (hxs(p), hxs(t)) for p, t in files]
+    items += ["S:open:%d" % i for i in range(len(files))]
+    if len(names) > max_q:
+        names = rng.sample(names, max_q)
+    posn = lsp_positions(text, [o for o, _ in names])
+    for o, nm in sorted(names):
+        l, c = posn[o]
+        c += rng.choice([0, 0, len(nm) // 2, len(nm) - 1])
+        for op in ["define", "refs", "highlight"]:
+            items.append("S:%s:%d:%d:%d" % (op, qfile, l, c))
+        items.append("S:rename:%d:%d:%d:%s" % (qfile, l, c, hxs(rng.choice(["zz", "network", "q_1"]))))
+    items += ["S:docsym:%d" % i for i in range(len(files))]
+    items += ["S:wssym:%s" % hxs(rng.choice(["", "", "a", "net", "M."])), "S:diags"]
+    return " ".join(items)
+
+
+def gen_ranges(rng, tier):
+    n = {"quick": 260, "thorough": 8000, "search": 200}[tier]
+    out = []
+    for k in range(n):
+        mode = "ok" if rng.random() < 0.8 else "wild"
+        nfiles = rng.choice([1, 1, 1, 2, 3])
+        files, allnames = [], []
+        for f in range(nfiles):
+            g = SrvGen(rng, mode)
+            text, names = render_srv(g.file(), rng, mode)
+            if rng.random() < 0.08:      # near-valid: damage
+                i = rng.randrange(len(text) + 1)
+                text2 = text[:i] + rng.choice(["(", "'", "end", " = ", "$", "]]"]) + text[i:]
+                text, names = text2, []
+            files.append(("f%d.lua" % f if f < 2 else "sub/f2.lua", text))
+            allnames.append(names)
+        q = rng.randrange(nfiles)
+        if not allnames[q]:
+            q = max(range(nfiles), key=lambda i: len(allnames[i]))
+        out.append(srv_case(files, q, allnames[q], rng, 30))
+    return out
+
+
+def describe_ranges(c):
+    fs = [it for it in c.split(" ") if it.startswith("F:")]
+    return " ### ".join(bytes.fromhex(f.split(":")[2]).decode("utf8", "replace") if f.split(":")[2] != "-" else "" for f in fs)[:400]
+
+
 PROJ = {}
 
 
@@ -229,7 +475,13 @@ def main(tier, seed):
     eleg = Leg("c04.errlocs", gen_errlocs, skip_model=lambda m: m.startswith("SKIP"),
                nontrivial=lambda c: len(c) > 40,
                describe=lambda c: bytes.fromhex(c.split(" ")[0]).decode("utf8", "replace")[:300] if c[0] != "-" else "")
-    legs = [leg, nleg, eleg]
+    # the ranges the REAL server sends: the oracle leg c04.srvans runs the scripted server once per case and appends its
+    # answer; the implementation observable is that answer, the spec column is the answer again iff every range in it passes
+    # the judgement extracted from Coq (range_in_doc / ranges_designate, theorem C04_designate_sound)
+    rleg = Leg("c04.ranges", gen_ranges, oracle="c04.srvans", per_case_s=2.0, jobs=16,
+               skip_model=lambda m: m.startswith("SKIP") or m == "BAD-CASE",
+               nontrivial=lambda c: c.count(" S:") > 8, describe=describe_ranges)
+    legs = [leg, nleg, eleg, rleg]
     can_run = r.can_run()
     extra = {}
     if can_run:
@@ -237,6 +489,9 @@ def main(tier, seed):
         rows = r.run_leg(leg)
         r.run_leg(nleg)
         r.run_leg(eleg)
+        rrows = r.run_leg(rleg)
+        nr = sum(1 for c, i, m, s, cls in rrows if s == m and m.startswith("A:"))
+        extra_ranges = {"server_cases_all_ranges_right": nr, "server_cases": len(rrows)}
         # the two readings of the spec (Gallina covers/slice_lsp on the model's Locs, Python slicing) must agree
         dis = 0
         cls_count = {}
@@ -255,9 +510,10 @@ def main(tier, seed):
             for k in ks:
                 cls_count[k] = cls_count.get(k, 0) + 1
         extra = {"spec_readings_disagree": dis, "files_inside_guard": ok_files, "class_counts": cls_count}
+        extra.update(extra_ranges)
         if dis:
             r.build_problems.append(("model-build", "Spec/LspRange.v vs Python reading of the LSP range", "%d disagreements" % dis))
     return r.finish(legs, extra_cov=extra, trusted=vlib.TRUSTED_COMMON + [
         "modelled, tied by correspondence: position bookkeeping of lexer.go (GetNowTokenLoc), LocToRange",
         "independent Python reading of LSP ranges (UTF-16 columns; LF, CRLF, CR) cross-checks Spec/LspRange.v on every case"],
-        assumptions=["ranges of definition/references/rename/symbol answers are AST Locs forwarded from these token Locs: covered by the checks of C05/C06/C11/C19"])
+        assumptions=["leg c04.ranges judges the answers of the real server (definition, references, highlight, rename, documentSymbol, workspace/symbol, diagnostics) with the predicate proved sound by C04_designate_sound; there is no model of the handlers in this property: that every answer passes is established for the generated cases only (the handlers' models belong to C05/C06/C11/C19)"])
